@@ -261,44 +261,37 @@ def _run_reader(cfg):
 
 
 def _run_scale(cfg):
-    """round((ticks / divisor) * 1e6) == microseconds of the instant, whenever that is an integer below 2^51."""
+    """round(ts * 1e6) == microseconds of the instant, whenever that is an integer below 2^51; ts is the computation the real Reader
+    performs for if_tsresol = cfg (recorded by pushing recording variables through it, tlv.sx.realmodel)."""
     import time
     import z3
-    from tlv.harness import c07
+    from tlv.sx import realmodel as rm
     t0 = time.time()
-    u = z3.RealVal(1) / z3.RealVal(2 ** 53)
     viol, inconc = [], []
     div = (10 ** cfg["k"]) if cfg["kind"] == "dec" else (2 ** cfg["k"])
+    raw = cfg["k"] if cfg["kind"] == "dec" else cfg["k"] - 128          # the option's signed byte
     n = 0
-    for e in c07.ts_expressions():
-        hi, lo, us = z3.Int("ts_high"), z3.Int("ts_low"), z3.Int("microseconds")
-        env = {"ts_high": (z3.ToReal(hi), False), "ts_low": (z3.ToReal(lo), False), "_divisor": (z3.RealVal(div), True), "_tsoffset": (z3.RealVal(0), False)}
-        errs = []
+    try:
+        exprs = rm.recorded_timestamps(raw, 0)
+    except rm.Unsupported as ex:
+        exprs = []
+        inconc.append("timestamp computation not recorded: %s" % ex)
+    except Exception as ex:
+        exprs = []
+        viol.append({"label": "scale-microsecond", "inputs": {"kind": cfg["kind"], "k": cfg["k"], "exception": True}, "detail": "%s: %s" % (type(ex).__name__, ex)})
+    for e in exprs:
         try:
-            ts, _ = c07.model_ts(e, env, z3, errs, u)
-        except ValueError as ex:
-            inconc.append("timestamp expression not recognised: %s" % ex)
+            s, m, us = rm.microsecond_query(e, div, True)
+        except rm.Unsupported as ex:
+            inconc.append("timestamp computation not modelled: %s" % ex)
             continue
-        d = z3.Real("delta_w")
-        errs.append(d)
-        m = ts * z3.RealVal(10 ** 6) * (1 + d)
-        ticks = z3.ToReal(hi) * (2 ** 32) + z3.ToReal(lo)
-        s = z3.Solver()
-        s.set("timeout", 120000)
-        s.add(hi >= 0, hi < 2 ** 32, lo >= 0, lo < 2 ** 32, us >= 0, us < 2 ** 51)
-        s.add(ticks * (10 ** 6) == z3.ToReal(us) * div)        # the instant is a whole microsecond
-        for x in errs:
-            if isinstance(x, tuple):
-                s.add(x[1])
-            else:
-                s.add(x >= -u, x <= u)
-        s.add(z3.Or(m - z3.ToReal(us) >= z3.RealVal(1) / 2, z3.ToReal(us) - m >= z3.RealVal(1) / 2))
         r = s.check()
         n += 1
         if r == z3.sat:
             mdl = s.model()
-            viol.append({"label": "scale-microsecond", "inputs": {"ts_high": mdl[hi].as_long(), "ts_low": mdl[lo].as_long(), "microseconds": mdl[us].as_long(),
-                                                                     "kind": cfg["kind"], "k": cfg["k"]}, "detail": "model allows a different microsecond"})
+            viol.append({"label": "scale-microsecond", "inputs": {"ts_high": mdl[m.vars["ts_high"]].as_long(), "ts_low": mdl[m.vars["ts_low"]].as_long(),
+                                                                     "microseconds": mdl[us].as_long(), "kind": cfg["kind"], "k": cfg["k"]},
+                         "detail": "model allows a different microsecond"})
         elif r != z3.unsat:
             inconc.append("solver: %s" % r)
     return {"stats": {"paths": n, "decisions": n, "queries": n, "solver_s": time.time() - t0, "checks": n}, "violations": viol, "sites": {"scale-microsecond": n},
